@@ -69,6 +69,8 @@ let table : (string * (z list -> z)) list = [
   ("equimod", judge_equimod);
   ("matutil", judge_matutil);
   ("edgelist", judge_edgelist);
+  ("climat", judge_climat);
+  ("cligraph", judge_cligraph);
 ]
 
 let () =
